@@ -2,34 +2,25 @@ package main
 
 import (
 	"fmt"
-	"math/rand"
 	"os"
 
-	"github.com/tsawler/tabula/odt"
-
-	"verifharness/fw"
-	"verifharness/gen/logical"
-	"verifharness/gen/odf"
+	"github.com/tsawler/tabula/core"
+	"github.com/tsawler/tabula/reader"
 )
 
 func main() {
-	for seed := int64(1); seed <= 30; seed++ {
-		r := rand.New(rand.NewSource(seed))
-		d := logical.Gen(r, fw.NewTokens(r), logical.Profile{MinBlocks: 5, MaxBlocks: 9, Tables: true, MaxRows: 5, MaxCols: 4, Spans: true, MultiPara: true, EmptyCells: true, BlockBias: "tables", Styles: 1, Lists: true, ListMaxDepth: 2})
-		p := "/dev/shm/dbgdoc.odt"
-		os.WriteFile(p, odf.WriteODT(d, odf.Options{}), 0o644)
-		a, _ := odt.Open(p)
-		a.ModelTables()
-		a.Tables()
-		m1, _ := a.Markdown()
-		b, _ := odt.Open(p)
-		m2, _ := b.Markdown()
-		nt := 0
-		for _, bl := range d.Blocks {
-			if bl.Kind == logical.BTable {
-				nt++
-			}
+	rd, err := reader.Open(os.Args[1])
+	if err != nil {
+		panic(err)
+	}
+	pg, _ := rd.GetPage(5)
+	list, _ := pg.Contents()
+	var _ core.Object
+	for _, o := range list {
+		o, _ = rd.Resolve(o)
+		if s, ok := o.(*core.Stream); ok {
+			d, err := s.Decode()
+			fmt.Printf("---- stream (%v)\n%s\n", err, d)
 		}
-		fmt.Println(seed, "tables", nt, "features", d.Features["table.vspan"], d.Features, "differs:", m1 != m2)
 	}
 }
